@@ -23,7 +23,9 @@ import (
 	"wvh/hlib"
 )
 
-var stressSizes = []int{16, 48, 80, 224, 4096}
+// small slots (the pointer one past a buffer is the next slot, possibly free) and whole
+// spans (one past a 40 KiB / 64 KiB buffer is the next span, possibly unallocated)
+var stressSizes = []int{16, 48, 80, 224, 4096, 40960, 65536}
 
 func stressFile(chunk int) ([]byte, []byte) {
 	var out bytes.Buffer
@@ -52,15 +54,24 @@ func stressChild(d time.Duration) {
 		}
 	}()
 	var wg sync.WaitGroup
-	for g := 0; g < 16; g++ {
+	for g := 0; g < 32; g++ {
 		wg.Add(1)
 		go func(g int) {
 			defer wg.Done()
 			var keep [][]byte
+			// one long-lived Reader (hence one long-lived decompressor object) per file
+			var readers []*rac.Reader
+			for k := range files {
+				readers = append(readers, &rac.Reader{ReadSeeker: bytes.NewReader(files[k].file), CompressedSize: int64(len(files[k].file)),
+					CodecReaders: []rac.CodecReader{&raczlib.CodecReader{}}})
+			}
 			for it := 0; time.Now().Before(stop); it++ {
 				k := (g + it) % len(files)
-				r := &rac.Reader{ReadSeeker: bytes.NewReader(files[k].file), CompressedSize: int64(len(files[k].file)),
-					CodecReaders: []rac.CodecReader{&raczlib.CodecReader{}}}
+				r := readers[k]
+				if _, err := r.Seek(0, io.SeekStart); err != nil {
+					fmt.Println("seek:", err)
+					os.Exit(3)
+				}
 				for off := 0; off < len(files[k].content); off += stressSizes[k] {
 					buf := make([]byte, stressSizes[k]) // one slot: the stream ends one past it
 					if _, err := io.ReadFull(r, buf); err != nil || !bytes.Equal(buf, files[k].content[off:off+stressSizes[k]]) {
@@ -74,6 +85,8 @@ func stressChild(d time.Duration) {
 						}
 					}
 				}
+			}
+			for _, r := range readers {
 				r.Close()
 			}
 		}(g)
@@ -114,7 +127,7 @@ func runStress(r *hlib.Run) {
 		}
 		r.Count("gc-stress:crash")
 		r.Fail("crash:reader-under-gc", "rac.Reader + raczlib crashed the process while decoding a valid file under back-to-back garbage collections: "+strings.ReplaceAll(msg, "\n", " | "),
-			"run harness/cmd/c15 with C15_STRESS="+d+" (16 goroutines decode writer-made files with DChunkSize 16/48/80/224/4096 into exact-size buffers while runtime.GC() loops)")
+			"run harness/cmd/c15 with C15_STRESS="+d+" (32 goroutines decode writer-made files with DChunkSize 16/48/80/224/4096/40960/65536 into exact-size buffers while runtime.GC() loops)")
 	case <-time.After(5 * time.Minute):
 		cmd.Process.Kill()
 		r.Count("gc-stress:timeout")
